@@ -36,3 +36,72 @@ def run_one(t):
         finally:
             w.close()
     return insitu.run(t, {["bounded_faults", "chaos"][pop - 1]: 1}, attach, force={"shell": "history"})
+
+
+# ---------------------------------------------------------------------------------------------
+# sweep: the whole routing table (the quantifier's finite space), against handlers in three states
+
+from cfdpsim.synth import KINDS, TO_RECEIVER, Synth  # noqa: E402
+from cfdpsim.tape import Tape  # noqa: E402
+from cfdpsim.world import ACK, UNACK, Cfg, World  # noqa: E402
+from props.pops import Ctx, _start  # noqa: E402
+from props.synthpop import live_seq  # noqa: E402
+
+from spacepackets.cfdp import Direction  # noqa: E402
+
+SWEEP_RULE = (
+    "every cell of PDU kind (Metadata, File Data, EOF, ACK of EOF, ACK of Finished, NAK, Finished, Keep-Alive, Prompt) x "
+    "direction flag (proper / flipped) x transmission mode x CRC flag x entity id width (1, 2, 4, 8) x handler state (no "
+    "transaction, mid-transfer, after the EOF), each delivered once as routed by get_packet_destination and once, in a "
+    "second identical world, to the other handler of the addressed entity (misroute fault)"
+)
+
+
+def SWEEP(tier):
+    cells = []
+    for kind in KINDS:
+        for flip in (0, 1):
+            for mode in (0, 1):
+                for crc in (0, 1):
+                    for idw in (1, 2, 4, 8):
+                        for state in ("none", "mid", "late"):
+                            for mis in (0, 1):
+                                cells.append({"kind": kind, "flip": flip, "mode": mode, "crc": crc, "idw": idw, "state": state, "misroute": mis})
+    return cells
+
+
+def run_sweep(p):
+    f = {"mode": [ACK, UNACK][p["mode"]], "crc": bool(p["crc"]), "idw_a": p["idw"], "idw_b": p["idw"], "shell": "plain", "size_sel": 6,
+         "vfs": "mem", "msgs": 0, "closure": True, "metadata_only": False, "ack_s": 1000.0, "nak_s": 1000.0, "check_s_recv": 1000.0,
+         "check_s_send": 1000.0}
+    t = Tape(values=[])
+    cfg = Cfg.draw(t, f)
+    w = World(t, cfg)
+    ctx = Ctx(w, "table_sweep")
+    try:
+        mon = RoutingMonitor(w)
+        w.monitors.append(mon)
+        if p["state"] != "none":
+            _start(ctx, None)
+            if p["state"] == "mid":
+                for _ in range(9):
+                    w.step()
+            else:
+                for _ in range(400):
+                    if not w.step():
+                        break
+                    if w.a.handlers["src"].step.name in ("WAITING_FOR_EOF_ACK", "WAITING_FOR_FINISHED", "NOTICE_OF_COMPLETION", "IDLE"):
+                        break
+        syn = Synth(w, perturb=0)
+        pdu, _ = syn.gen(t, p["kind"], live_seq(w), pert=False)
+        if p["flip"]:
+            h = pdu.pdu_header
+            h.direction = Direction.TOWARDS_SENDER if h.direction == Direction.TOWARDS_RECEIVER else Direction.TOWARDS_RECEIVER
+        raw = bytes(pdu.pack())
+        ent = w.b if p["kind"] in TO_RECEIVER else w.a
+        rec = w.deliver(ent, raw, misroute=bool(p["misroute"]))
+        r = from_world(w, ctx.pop, rec is not None)
+        r.cfg = dict(r.cfg, sweep=p)
+        return r
+    finally:
+        w.close()
